@@ -298,6 +298,29 @@ func runC20(c *eng.Ctx) {
 		ok := len(del) == 1 && eng.MentionsField(eng.Arg(del[0].(*ssa.Call), 4), h.src)
 		c.Ob("GUARD-delete-data", eng.FuncName(fn)+" flag-from-request", ok, fn.Pos(), "the data-deletion flag is the request's "+h.src)
 	}
+
+	// all chunks of the old version are handed to deletion only on the edge where there is no new version at all
+	if fn := c.NeedFunc("weed/filer", "(*Filer).deleteChunksIfNotNew"); fn != nil {
+		var whole []ssa.Instruction
+		for _, in := range eng.Find(fn, eng.PlainCallTo("filer.Filer).DeleteChunks")) {
+			arg := eng.Arg(in.(*ssa.Call), 0)
+			if eng.IsField(arg, "Entry.Chunks") && eng.Mentions(arg, 4, func(v ssa.Value) bool { return eng.IsParamLike(v, "oldEntry") }) {
+				whole = append(whole, in)
+			}
+		}
+		noNew := eng.PassEdges(fn, func(cond ssa.Value) (bool, bool) {
+			b, ok := cond.(*ssa.BinOp)
+			if !ok || (b.Op != token.EQL && b.Op != token.NEQ) || !eng.IsNilConst(b.Y) || !eng.IsParamLike(b.X, "newEntry") {
+				return false, false
+			}
+			return true, b.Op == token.EQL
+		})
+		if len(whole) == 0 {
+			c.Note("deleteChunksIfNotNew never hands the whole old chunk list to deletion")
+		} else {
+			c.Guard("GUARD-hardlink", "whole-old-version-only-without-new-version", fn, eng.Entry(fn), whole, noNew, "every chunk of the old version is deleted only when no new version exists (otherwise only the chunks the new version dropped)")
+		}
+	}
 }
 
 // classifyChunkArg names the accepted provenance of a chunk list handed to a deletion sink ("" when none applies).
